@@ -307,9 +307,10 @@ theorem evalH_fresh (s : Sig) (body : PDict → Res Val) (unh : Call → Bool) :
           | ok v => exact ⟨rfl, fun e he => by cases he⟩
           | error e =>
             simp only
-            by_cases hp : p.lookup "return_value" = some (.cell (.bool false))
+            by_cases hp : returnsValue p = false
             · simp only [hp, if_true]; exact ⟨trivial, fun _ _ => h2 e rfl⟩
-            · simp only [hp, if_false]; exact ⟨trivial, fun e he => by cases he⟩
+            · have hp' : returnsValue p = true := by simpa using hp
+              simp only [hp', Bool.true_eq_false, if_false]; exact ⟨trivial, fun e he => by cases he⟩
       · have ih := evalH_fresh s body unh rest st c h
         simp only [evalH, evalChain]
         cases hr : evalH s body unh rest st c with
